@@ -394,10 +394,16 @@ func TestC02_Words(t *testing.T) {
 						qw[i] = genWord(t)
 					}
 					q := wordsToBig(qw)
-					lim := new(big.Int).Lsh(ref.One, uint(w))
-					for new(big.Int).Mul(q, o).Cmp(lim) >= 0 {
+					// the product fills 1..n words: every branch of the division (dividend shorter than, as long as,
+					// longer than the divisor) gets exact multiples and near-multiples
+					lim := new(big.Int).Lsh(ref.One, uint(64*ir(t, 1, n, "prodWords")))
+					for new(big.Int).Mul(q, o).Cmp(lim) >= 0 && q.Sign() > 0 {
 						q.Rsh(q, 17)
 					}
+					if q.Sign() == 0 {
+						q.SetInt64(int64(ir(t, 1, 3, "smallQ")))
+					}
+					lim.Lsh(ref.One, uint(w))
 					v := new(big.Int).Mul(q, o)
 					switch ir(t, 0, 2, "rem") {
 					case 1:
